@@ -140,8 +140,38 @@ def spec_escape(t):
     return "".join(out)
 
 
+def float_parts(x):
+    """the double x as (neg, m, e) with |x| = m * 2^e exactly, m < 2^53"""
+    import math
+    neg = math.copysign(1.0, x) < 0
+    if x == 0:
+        return neg, 0, 0
+    fr, ex = math.frexp(abs(x))
+    return neg, int(fr * 2 ** 53), ex - 53
+
+
+def spec_interp_float(x, spec):
+    """documented rendering of a double: {x} = 6 decimals, {x:[W].Nf} = N decimals right-aligned in W columns (C's %W.Nf);
+    the 0 flag is read as C's %0W.Nf for non-negative values only (the implementation puts the fill before the sign)"""
+    import math
+    import re
+    if spec in (None, ""):
+        return "%f" % x
+    m = re.fullmatch(r"(0?)([0-9]*)\.([0-9]+)(f?)", spec)
+    if not m:
+        return None
+    zero, w, p = m.group(1) == "0", int(m.group(2) or 0), int(m.group(3))
+    if zero and (math.copysign(1.0, x) < 0):
+        return None
+    if zero and w == 0:
+        return None
+    return ("%" + ("0" if zero else "") + (str(w) if w else "") + "." + str(p) + "f") % x
+
+
 def spec_interp_value(v, spec):
     """documented rendering of {expr:spec}; None = no documented reading"""
+    if isinstance(v, float):
+        return spec_interp_float(v, spec)
     if isinstance(v, str):
         return v if spec in (None, "") else None
     if spec in (None, "", "d"):
@@ -698,6 +728,8 @@ def x_src(t):
         return t[1]
     if k == "ilit":
         return lit(t[1])
+    if k == "flit":
+        return t[1]
     if k == "call":
         return "%s(%s)" % (t[1].name, ", ".join(x_src(a) for a in t[2]))
     if k == "mcall":
@@ -713,6 +745,8 @@ def x_kind(t):
         return t[3]
     if k in ("arith", "ilit"):
         return "I"
+    if k == "flit":
+        return "F"
     if k == "slit":
         return "S"
     f = t[1] if k == "call" else t[2]
@@ -728,6 +762,8 @@ def x_value(t, ctx):
         return t[2](ctx)
     if k == "ilit":
         return t[1]
+    if k == "flit":
+        return float(t[1])
     if k == "slit":
         return t[1]
     f, args = (t[1], t[2]) if k == "call" else (t[2], t[3])
@@ -755,7 +791,7 @@ def callee_ctx(f, args, ctx, recv=None):
 def x_comp(t, ctx):
     """the model's comp for an expression evaluated in a context"""
     k = t[0]
-    if k in ("leaf", "arith", "ilit", "slit"):
+    if k in ("leaf", "arith", "ilit", "slit", "flit"):
         return {"v": x_value(t, ctx)}
     f, args = (t[1], t[2]) if k == "call" else (t[2], t[3])
     cctx = callee_ctx(f, args, ctx, t[1] if k == "mcall" else None)
@@ -1064,6 +1100,14 @@ def apply_oracle(p):
 
 
 # ---- generation of templates
+FLOAT_LITS = ["0.5", "1.5", "2.5", "3.5", "0.125", "0.375", "0.625", "2.125", "1000000.5", "0.25", "0.75", "4503599627370496.5",      # ties
+              "2.675", "1.005", "1.115", "0.285", "8.345", "1.45", "2.345", "1.255", "0.045", "0.15", "0.35",                              # just off a tie
+              "9.995", "0.999999", "99.9999999", "9.5", "0.95", "0.9999995", "999999.9999995", "0.99", "99.5", "0.05",                     # carries
+              "1e15", "123456789012345.678", "9007199254740993.0", "1e21", "1.7976931348623157e308", "18446744073709551616.0", "1e100",     # large
+              "1e-7", "0.000001234", "2.2250738585072014e-308", "0.00000000000000000001", "1e-300", "0.0000005",                         # small
+              "3.14159265358979", "2.718281828459045", "0.1", "0.2", "0.3", "100.0", "0.0", "123.456", "1.0", "10.0", "7.0e2", "2.5E-3"]
+
+
 SPECS = ["x", "X", "b", "d", "%d", "%dd", "0%d", "0%dd", "%dx", "0%dx", "0%dX", "0%db", ""]
 
 
@@ -1086,6 +1130,29 @@ class NestGen:
         w = rng.randint(0, 22)
         s = rng.choice(SPECS)
         return s % w if "%d" in s else s
+
+    def fspec(self):
+        """[0][W].N[f] or nothing (= 6 decimals)"""
+        rng = self.rng
+        if rng.random() < 0.15:
+            return None
+        p = rng.choice([0, 0, 1, 1, 2, 2, 2, 3, 3, 4, 5, 6, 7, 8, 9, 10, 11, 12, 15, 16, 17, 20, 25, 30, 40])
+        w = rng.choice([0, 0, 0] + list(range(0, 23)))
+        zero = "0" if (w and rng.random() < 0.1) else ""
+        return "%s%s.%d%s" % (zero, str(w) if w else "", p, rng.choice(["f", "f", "f", ""]))
+
+    def flit(self):
+        rng = self.rng
+        r = rng.random()
+        if r < 0.7:
+            t = rng.choice(FLOAT_LITS)
+        elif r < 0.85:
+            t = "%.*f" % (rng.randint(1, 9), rng.uniform(0, 10 ** rng.randint(0, 6)))
+        else:
+            t = repr(rng.uniform(0, 1) * 10 ** rng.randint(-8, 18))
+            if "e" in t and "." not in t.split("e")[0]:
+                t = t.replace("e", ".0e")
+        return ("-" if rng.random() < 0.3 else "") + t
 
     def pick_call(self, sc, kind, depth, in_lit=False):
         """a call expression of the wanted kind ('S' / 'I' / 'V' void) to a callable of the scope, or None.
@@ -1113,6 +1180,8 @@ class NestGen:
                 args.append(c or rng.choice(sc["ints"] + sc["smalls"]))
             elif ty == "int" and name == "d":
                 args.append(("ilit", rng.randint(0, 3)))       # recursion depth of r(d, n)
+            elif ty == "double":
+                args.append(rng.choice(sc.get("flts", []) + [("flit", self.flit())]))
             elif ty == "int":
                 if force_k is not None:
                     args.append(("ilit", force_k))
@@ -1135,6 +1204,8 @@ class NestGen:
             if c is not None:
                 return c, (self.spec() if kind == "I" else None)
         r = rng.random()
+        if sc.get("flts") and rng.random() < 0.18:
+            return rng.choice(sc["flts"]), self.fspec()
         if r < 0.45:
             return rng.choice(sc["ints"]), self.spec()
         strs = [x for x in sc["strs"] if x[0] == "leaf"]      # a quoted literal cannot stand inside the braces
@@ -1295,6 +1366,8 @@ class NestGen:
         for ty, name in f.params:
             if ty == "long":
                 sc["ints"].append(("leaf", name, name, "I"))
+            elif ty == "double":
+                sc.setdefault("flts", []).append(("leaf", name, name, "F"))
             elif ty == "int":
                 sc["smalls"].append(("leaf", name, name, "I"))
                 c = self.rng.randint(1, 9)
@@ -1318,7 +1391,8 @@ class NestGen:
         rng = self.rng
         rtype = rng.choice(["string", "string", "string", "long", "int", "void"])
         sig = rng.choice([[("long", "n")], [("long", "n"), ("int", "k")], [("long", "n"), ("string", "t")], [("int", "k")],
-                          [("int", "k"), ("string", "t")], [("long", "n"), ("int", "k"), ("string", "t")]] + ([[]] if struct else []))
+                          [("int", "k"), ("string", "t")], [("long", "n"), ("int", "k"), ("string", "t")],
+                          [("double", "x")], [("long", "n"), ("double", "x")], [("double", "x"), ("int", "k")]] + ([[]] if struct else []))
         if struct:
             sig = [p for p in sig if p[1] != "t"] if rng.random() < 0.5 else sig
         if rtype == "int" and not any(ty == "int" for ty, _ in sig):
@@ -1479,12 +1553,24 @@ def nested_program(seed, k, tier, n_stmts):
         objs.append(on)
     arr = [g.pick_value(rng.randint(0, 50)) for _ in range(4)]
     decls.append("long[4] arr = [%s];" % ", ".join(lit(v) for v in arr))
+    flts = []
+    for j in range(5):
+        t = ng.flit()
+        if j == 4:          # a float (binary32) variable: the value is the literal rounded to single precision
+            import struct
+            t = rng.choice(["1.1", "0.1", "2.675", "16777217.0", "0.3", "3.14159265358979", "1e10", "0.5"])
+            decls.append("float d%d = %s;" % (j, t))
+            ctx["d%d" % j] = struct.unpack("f", struct.pack("f", float(t)))[0]
+        else:
+            decls.append("double d%d = %s;" % (j, t))
+            ctx["d%d" % j] = float(t)
+        flts.append(("leaf", "d%d" % j, "d%d" % j, "F"))
     sc = {"ints": [("leaf", n, n, "I") for n, _ in g.ints] + [("leaf", "p.a", "p.a", "I"), ("leaf", "q.a", "q.a", "I")]
                   + [("leaf", "arr[%d]" % i, "arr[%d]" % i, "I") for i in range(4)],
           "smalls": [("leaf", n, n, "I") for n, _ in g.small] + [("leaf", "p.b", "p.b", "I")]
                     + [("arith", "%s + %d" % (g.small[0][0], 7), (lambda c, n=g.small[0][0]: c[n] + 7)),
                        ("arith", "%s * 2 - %s" % (g.small[1][0], g.small[2][0]), (lambda c, a=g.small[1][0], b=g.small[2][0]: c[a] * 2 - c[b]))],
-          "strs": [("leaf", n, n, "S") for n, _ in g.strs],
+          "strs": [("leaf", n, n, "S") for n, _ in g.strs], "flts": flts,
           "funcs": list(ng.funcs), "objs": objs}
     for i in range(4):
         ctx["arr[%d]" % i] = arr[i]
@@ -1575,10 +1661,42 @@ def nested_program(seed, k, tier, n_stmts):
     stmts = inst["body"]
     if ending == "return":
         stmts.insert(rng.randint(0, len(stmts)), {"ret": 1})
-    env = [[t, "C", c] if "body" in c else [t, "I" if isinstance(c["v"], int) else "S", c["v"]] for t, c in inst["locals"]]
+    env = [[t, "C", c] if "body" in c else [t, "F" if isinstance(c["v"], float) else "I" if isinstance(c["v"], int) else "S", c["v"]]
+           for t, c in inst["locals"]]
     p = {"k": k, "decls": decls, "env": env, "stmts": stmts, "ending": ending, "main": rng.choice(["void", "int"]),
          "avoided": avoided, "top": ng.top, "nested": 1}
     return apply_oracle(p)
+
+
+FLOAT_PRECS = list(range(0, 21)) + [25, 30, 40]
+
+
+def float_programs(seed, tier):
+    """{x:.Nf} / {x:W.Nf} / {x}: every value of FLOAT_LITS (ties, values just off a tie, carries, very large and very small
+    magnitudes), both signs, every precision 0..20 and 25 30 40; quick: a rotating third of the grid, thorough: all of it"""
+    pairs = [(t, sg, p) for t in FLOAT_LITS for sg in ("", "-") for p in FLOAT_PRECS]
+    if tier == "quick":
+        pairs = [x for i, x in enumerate(pairs) if (i + seed) % 3 == 0]
+    rng = rng_for(seed, "c16-float", tier)
+    progs = []
+    per = 48
+    for k in range(0, len(pairs), per):
+        decls, env, stmts, names = [], [], [], {}
+        for t, sg, p in pairs[k:k + per]:
+            key = sg + t
+            if key not in names:
+                names[key] = "a%d" % len(names)
+                decls.append("double %s = %s;" % (names[key], key))
+                env.append([names[key], "F", float(key)])
+            n = names[key]
+            w = rng.choice([0, 0, rng.randint(1, 30)])
+            spec = "%s.%d%s" % (str(w) if w else "", p, rng.choice(["f", "f", ""]))
+            parts = [["t", "<"], ["e", n, spec], ["t", "|"], ["e", n, None if p != 6 else "0%d.%df" % (rng.randint(1, 24), rng.randint(0, 9))], ["t", ">"]]
+            text = "<{%s:%s}|{%s%s}>" % (n, spec, n, "" if parts[3][2] is None else ":" + parts[3][2])
+            stmts.append({"nl": 1, "kind": "float-grid", "args": [{"k": "Q", "text": text, "parts": parts}]})
+        progs.append(apply_oracle({"k": k, "decls": decls, "env": env, "stmts": stmts, "ending": "normal", "main": "void",
+                                   "avoided": {}, "nested": 0}))
+    return progs, len(pairs)
 
 
 def nested_malformed(seed, n):
@@ -1731,9 +1849,16 @@ def stmt_lines(s, out):
         out.append("P %d %s" % (s["nl"], " ".join(arg_tok(a) for a in s["args"])))
 
 
+def val_line(v):
+    if isinstance(v, float):
+        neg, m, e = float_parts(v)
+        return "VAL F %d %d %d" % (1 if neg else 0, m, e)
+    return "VAL I %d" % v if isinstance(v, int) else "VAL S " + hexs(v)
+
+
 def comp_lines(c, out):
     if "v" in c:
-        out.append("VAL I %d" % c["v"] if isinstance(c["v"], int) else "VAL S " + hexs(c["v"]))
+        out.append(val_line(c["v"]))
         return
     out.append("CALL")
     for name, ac in c["params"]:
@@ -1755,6 +1880,9 @@ def model_lines(p, only=None):
         if kind == "C":
             out.append("L " + hexs(e))
             comp_lines(v, out)
+        elif kind == "F":
+            out.append("L " + hexs(e))
+            out.append(val_line(v))
         else:
             out.append("E %s %s %s" % (hexs(e), kind, v if kind == "I" else hexs(v)))
     sel = set(selected(p, only))
@@ -2081,6 +2209,9 @@ def _run(rep, seed, tier, runner, t0=0):
             progs.append(nested_program(sd, k, tier, 24 if tier == "quick" else 40)); origin.append("nested-rendering")
     for p in nested_malformed(seed, 20 if tier == "quick" else 100):
         progs.append(p); origin.append("malformed-literal")
+    fp, n_float = float_programs(seed, tier)
+    for p in fp:
+        progs.append(p); origin.append("float-grid")
     n_pairs = 0
     if tier == "thorough":
         gp, n_pairs = grid_programs(300)
@@ -2150,6 +2281,9 @@ def _run(rep, seed, tier, runner, t0=0):
                              "renderings_by_depth": {str(k_): v_ for k_, v_ in sorted(nstat.get("renderings_by_depth", {}).items())},
                              "inner_in_outer": nstat.get("inner_in_outer", {}),
                              "programs_by_max_depth": {str(k_): v_ for k_, v_ in sorted(nstat.get("programs_by_max_depth", {}).items())}},
+        "float_grid": "{x:[W].Nf} and {x}: %d (value, sign, precision) triples of %d decimal literals (ties, values just off a tie, carries, "
+                      "magnitudes 1e-308..1.8e308) x 2 signs x precisions 0..20 25 30 40 (%s), plus doubles / a float variable / double parameters "
+                      "inside the nested-rendering programs" % (n_float, len(FLOAT_LITS), "complete grid" if tier == "thorough" else "a rotating third of the grid"),
         "avoided_known_findings": avoided,
         "samples": [{"statement": stmt_src(sample_p["stmts"][sample_i]).encode("latin-1").decode("utf-8", "replace"),
                      "model_stdout": (sm[1] or b"").decode("utf-8", "replace")},
